@@ -1,7 +1,7 @@
 ----------------------------- MODULE MC_GridSeq -----------------------------
 (* Bounded instance of GridSeq for model checking and edge/state generation. *)
 EXTENDS GridSeq, Json
-\* row alphabet: 1 {'id':'a'}  2 {'id':'a'} (same id, other content)  3 {'id': 5}  4 {'id': Ref('b')}
+\* row alphabet: 1 {'id':'a'}  2 {'id':'a'} (same id, other content)  3 {'id': 0}  4 {'id': Ref('b')}
 \*               5 {'v': 3} (no id)  6 {'id':'c','l':[1]} (3.0-only value)   NonDict: 7 (a list)  8 (None)
 MCIdOf(r) == CASE r = 1 -> 1 [] r = 2 -> 1 [] r = 3 -> 2 [] r = 4 -> 3 [] r = 5 -> 0 [] r = 6 -> 4 [] OTHER -> 0
 IdCodes == {1, 2, 3, 4, 5}      \* 5: an id no row has
